@@ -1,18 +1,19 @@
 """Runner configuration of property C11 (loaded by tools/props.py; one file per property so that
 concurrent edits never collide)."""
 PROPS["C11"] = dict(
-    level_text="Theorems (Props/C11.lean) prove for every shard count, msb_ignore<64 and i64 token that the u64 implementation equals ScyllaDB's stated algorithm and is < nr_shards; for every shard and port range that the drawable/iterable ports are exactly the ports of the range congruent to the shard (each once, any pivot/index), and that None/empty is produced iff no such port exists. The model is tied to sharding.rs by a differential run (exhaustive corner sweep + boundary/random cases) with a brute-force oracle. Which sharder a token-aware request is routed with after a node RESTARTS with new sharding parameters (same shard count / other ignore-msb included) is the pool's business: proved for the refiller model in Props/C12.lean (handleReady_adopts_reported_sharder) and tested end-to-end by the `rs=` histories of `e2e route` (C12).",
+    level_text="Theorems (Props/C11.lean) prove for every shard count, msb_ignore<64 and i64 token that the u64 implementation equals ScyllaDB's stated algorithm and is < nr_shards; for every shard and port range that the drawable/iterable ports are exactly the ports of the range congruent to the shard (each once, any pivot/index), and that None/empty is produced iff no such port exists (drawPort_none_no_port); the whole SUPPORTED parse (ShardInfo::try_from) accepts exactly three present numeric entries with shard < nr_shards != 0 and tells a Cassandra node (no entry at all) from a malformed answer. The model is tied to sharding.rs by a differential run (exhaustive corner sweep + boundary/random cases) with a brute-force oracle. Which sharder a token-aware request is routed with after a node RESTARTS with new sharding parameters (same shard count / other ignore-msb included) is the pool's business: proved for the refiller model in Props/C12.lean (handleReady_adopts_reported_sharder) and tested end-to-end by the `rs=` histories of `e2e route` (C12).",
     level_note="Trusted: Lean kernel + {propext, Classical.choice, Quot.sound}; hand-written model Model/Sharding.lean (tie = differential harness through cfg(scylla_verif) pass-throughs); RNG choices are explicit model arguments (membership check). msb_ignore >= 64 (malformed SUPPORTED) is outside the property's domain.",
     lean_modules=["ScyllaVerif.Props.C11"],
     rule="case = (operation, shard count, msb/shard, token or port range); distinct case lines whose implementation output is not `none`/`-`/`0` count as non-trivial",
     trivial=lambda c, o: o in ("none", "-", "0"),
     trusted=[
         "the sharder handed to shard_of is the one the node currently reports: not part of this check - see C12 (connection_pool.rs maybe_reshard; `e2e route rs=` node-restart histories against harness/src/mockcluster.rs)",
-        "Model/Sharding.lean transcribes sharding.rs:121-237, 85-103, 274-308; u128 product modelled on Nat (product_fits_u128)",
+        "Model/Sharding.lean transcribes sharding.rs:121-237 (shard_of, ports), 85-103 (ShardInfo::new), 286-320 (the whole ShardInfo::try_from: key presence, empty value lists, parse order = parseShardOptions; shardopts_ok / shardopts_no_info_iff / shardopts_numbers), 78-83 (Token FromStr, no normalisation: `shardraw` cases); u128 product modelled on Nat (product_fits_u128)",
         "rand::rng() index/pivot are explicit arguments of the model; correspondence for draw/iter is membership (model checks the observed output is producible by some random choice)",
     ],
     assumptions=[
         "msb_ignore < 64 for shardOfImpl_eq_spec (the value range ScyllaDB sends); shard < nr_shards and hi <= 65535 (u16) for the port theorems - both enforced by the Rust types/asserts",
     ],
-    partial=[],
+    partial=["shard_of uses the release-build `<<` (shift amount mod 64): a debug build panics for msb_ignore >= 64, which ShardInfo::new accepts (64..=255) - outside the property's domain, no theorem links an accepted ShardInfo to msb_ignore < 64",
+             "`draw` is generated in the random cells only, not in the exhaustive corner sweep (`lowest` covers the arithmetic there)"],
 )
